@@ -2,6 +2,7 @@
 properties observe."""
 import operator
 import os
+import pandas as pd
 import shutil
 import sys
 import tempfile
@@ -125,7 +126,8 @@ class VolFilterAlphaModel(AlphaModel):
 def mk_universe(u):
     if u[0] == 'static':
         return StaticUniverse(list(u[1]))
-    return DynamicUniverse(dict((a, (None if e is None else ts(e))) for a, e in u[1]))
+    missing = pd.NaT if (len(u) > 2 and u[2] == 'nat') else None      # a missing entry date as None or as pandas' NaT
+    return DynamicUniverse(dict((a, (missing if e is None else ts(e))) for a, e in u[1]))
 
 
 def write_csvs(d, assets):
@@ -185,8 +187,9 @@ def run_session(c, shared_ds=None):
             # another signal of the same collection, listed first, over a DIFFERENT (static, all-asset) universe
             allu = StaticUniverse([a for a, _ in cfg['universe'][1]] if cfg['universe'][0] == 'dynamic' else list(cfg['universe'][1]))
             sigs['aaa_all_assets_vol'] = VolatilitySignal(start, allu, list(lbs))
-        sigs['momentum'] = MomentumSignal(start, universe, list(lbs))
-        sigs['sma'] = SMASignal(start, universe, list(lbs))
+        sig_start = start + pd.Timedelta(days=cfg.get('signal_start_shift', 0))     # a Signal's own start_dt argument
+        sigs['momentum'] = MomentumSignal(sig_start, universe, list(lbs))
+        sigs['sma'] = SMASignal(sig_start, universe, list(lbs))
         tracked_signal[0] = sigs['momentum']
         if cfg['alpha'][0] == 'volfilter':
             sigs['vol'] = VolatilitySignal(start, universe, list(lbs))
@@ -292,11 +295,12 @@ def handler(c):
         if ds is not None:
             for asset, t in extra:
                 for src in ds[0]:
-                    try:
-                        src.get_bid(ts(t), asset)
-                        src.get_ask(ts(t), asset)
-                    except Exception:
-                        pass
+                    for q in (ts(t), ts(t).tz_convert('America/New_York'), ts(t).tz_convert('Asia/Tokyo')):
+                        try:
+                            src.get_bid(q, asset)
+                            src.get_ask(q, asset)
+                        except Exception:
+                            pass
         b, _ = run_session(c, shared_ds=ds)
         return {'first': a, 'second': b}
     if c.get('mode') == 'after_other':
@@ -315,6 +319,25 @@ def handler(c):
                         pass
         reused, _ = run_session(c, shared_ds=ds)
         return {'first': fresh, 'second': reused, 'other_ok': first['init']}
+    if c.get('mode') == 'prequeried':
+        # a fresh run, then the same session on a NEW data source that has first answered other queries
+        # (the session's own instants expressed in other time zones, and arbitrary instants)
+        fresh, _ = run_session(c)
+        universe = mk_universe(c['cfg']['universe'])
+        try:
+            _, keep = csv_handler(c['market'], universe)
+        except Exception as e:
+            return {'first': fresh, 'second': {'init': errname(e)}}
+        for asset, t in (c.get('extra_queries') or []):
+            for src in keep[0]:
+                for q in (ts(t).tz_convert('America/New_York'), ts(t).tz_convert('Asia/Tokyo'), ts(t)):
+                    try:
+                        src.get_bid(q, asset)
+                        src.get_ask(q, asset)
+                    except Exception:
+                        pass
+        reused, _ = run_session(c, shared_ds=keep)
+        return {'first': fresh, 'second': reused}
     if c.get('mode') == 'same_dir':
         # baseline on its own directory; then, on ONE other directory, a data source with the opposite adjustment
         # setting is built and queried first, and a NEW source object with the right setting serves the session
